@@ -106,6 +106,8 @@ def gen_case(rng, quick):
     plan = dict(bc=bc, bc_ok=bc_ok, tuples=tuples, lin=lin, Tq=Tq)
     if bc_ok:
         plan['sfs_ij'] = [rng.randint(1, n - 1), rng.randint(1, n - 1)]
+    # the model's third-order evaluation is slow (15 fixed-point Van Loan exponentials per epoch): half of the quick cases
+    plan['probe3'] = (not quick) or rng.random() < 0.5
     return cfg, plan
 
 
@@ -424,7 +426,7 @@ class Case:
         for t in plan['tuples']:
             rs = t['rewards']
             k = len(rs)
-            if k > 3 or 'cen' not in t or k in done:
+            if k > 3 or 'cen' not in t or k in done or (k == 3 and not plan.get('probe3', True)):
                 continue
             kind = 'lc' if all(U.supports_lc(r) for r in rs) else 'bc'
             states = self.coal.lineage_counting_state_space.k if kind == 'lc' else self.coal.block_counting_state_space.k
@@ -433,11 +435,11 @@ class Case:
                 continue
             conv.setup_model(drv, cfg, kind)
             exp = conv.model_moment(drv, cfg, True, True, rs, [T])[0]
-            raw = conv.model_moment(drv, cfg, False, True, rs, [T])[0]
             self.ctx.count(f'probe-k{k}')
-            if not abs(t['cen'] - float(exp)) <= 1e-6 * max(abs(float(raw)), t.get('scale', 0.0)) + 1e-300:
+            # scale: sum of the absolute terms of the centring combination (real raw moments), as in (a)
+            if not abs(t['cen'] - float(exp)) <= 1e-6 * t['scale'] + 1e-300:
                 self.ctx.corr_break('C15-moment', cfg=cfg, rewards=[U.rname(r) for r in rs], end_time=float(T),
-                                    model=float(exp), real=t['cen'], model_raw=float(raw))
+                                    model=float(exp), real=t['cen'], raw_scale=t['scale'])
             done.add(k)
 
     def run(self, probe=True):
